@@ -37,6 +37,18 @@ impl Ctx {
 
 // ---- panic capture ----------------------------------------------------------
 static PANICS: Mutex<Vec<String>> = Mutex::new(Vec::new());
+/// C07: description of the hostile input delivered last (class, mutation, length, hex prefix); appended to
+/// every panic record so that a C07.panic violation names its input. Cleared at the start of every run.
+static LAST_INPUT: Mutex<String> = Mutex::new(String::new());
+pub fn set_last_input(note: &str) {
+    let mut g = LAST_INPUT.lock().unwrap_or_else(|e| e.into_inner());
+    g.clear();
+    g.push_str(note);
+}
+/// number of panics recorded so far in this run (any task)
+pub fn panic_count() -> usize {
+    PANICS.lock().unwrap_or_else(|e| e.into_inner()).len()
+}
 pub fn install_panic_hook() {
     static ONCE: std::sync::Once = std::sync::Once::new();
     ONCE.call_once(|| {
@@ -49,9 +61,34 @@ pub fn install_panic_hook() {
             } else {
                 "<non-string panic>".into()
             };
-            PANICS.lock().unwrap_or_else(|e| e.into_inner()).push(format!("{loc}: {msg}"));
+            let note = LAST_INPUT.lock().unwrap_or_else(|e| e.into_inner()).clone();
+            let tail = if note.is_empty() { String::new() } else { format!(" | last hostile input: {note}") };
+            // A panic raised inside a dependency (bytes::Buf::get_u8 on an empty buffer, slice indexing helpers ...)
+            // carries the dependency's location. Whose fault it is is decided by the innermost frame that belongs
+            // to rustrtc or to the harness (symbol names; the sim profile has no file/line debug info).
+            let mut owner = String::new();
+            if !is_repo_path(&loc) {
+                let bt = std::backtrace::Backtrace::force_capture().to_string();
+                for l in bt.lines() {
+                    let l = l.trim_start();
+                    let Some((_, sym)) = l.split_once(": ") else { continue };
+                    let sym = sym.trim_start_matches('<');
+                    if sym.starts_with("rustrtc::") {
+                        owner = format!("/repo/ (in {} via {loc})", sym.split(" as ").next().unwrap_or(sym));
+                        break;
+                    }
+                    if sym.starts_with("rtcsim::") && !sym.starts_with("rtcsim::sim::install_panic_hook") {
+                        break;
+                    }
+                }
+            }
+            let head = if owner.is_empty() { loc } else { owner };
+            PANICS.lock().unwrap_or_else(|e| e.into_inner()).push(format!("{head}: {msg}{tail}"));
         }));
     });
+}
+fn is_repo_path(p: &str) -> bool {
+    p.starts_with("/repo/") || option_env!("RTCSIM_REPO_PREFIX").map(|x| p.starts_with(x)).unwrap_or(false)
 }
 pub fn take_panics() -> Vec<String> {
     std::mem::take(&mut *PANICS.lock().unwrap_or_else(|e| e.into_inner()))
@@ -95,6 +132,8 @@ pub fn gen_cert_pool(n: usize) {
 }
 
 fn install_seams(plan: &Plan) {
+    // process-wide state of rustrtc must not survive from an earlier run of this worker process
+    rustrtc::transports::ice::shared_udp::verif_reset_registry();
     let mut r = Rng::new(mix(plan.seed, 0x72616e64));
     vh::set_random_source(Some(Box::new(move |b: &mut [u8]| r.fill(b))));
     let _ = pool();
@@ -132,6 +171,7 @@ fn clear_seams() {
 pub fn run_plan(plan: &Plan, keep_log: bool) -> Outcome {
     install_panic_hook();
     let _ = take_panics();
+    set_last_input("");
     install_seams(plan);
     let rt = tokio::runtime::Builder::new_current_thread()
         .enable_all()
@@ -184,7 +224,8 @@ pub fn run_plan(plan: &Plan, keep_log: bool) -> Outcome {
     for p in panics {
         // A panic inside rustrtc is a C07 matter (other properties only count it);
         // a panic anywhere else is a harness error (exit 2, never a finding).
-        let in_rustrtc = p.starts_with("/repo/");
+        // (builds against a scratch worktree of rustrtc set RTCSIM_REPO_PREFIX at compile time)
+        let in_rustrtc = is_repo_path(&p);
         if in_rustrtc {
             *out.stats.entry("panic.rustrtc".into()).or_insert(0) += 1;
             if is_c07 {
